@@ -151,14 +151,26 @@ Definition isact (f : nat) : bool := existsb (Nat.eqb f) (fl_act fb).
 Definition act_sorted : bool :=
   list_nat_eqb (fl_act fb) (filter isact (seq 0 (length (fl_design fb)))).
 
+(** a factor that has a level in every trial *)
+Definition always_appl (d : nat) : bool :=
+  match factor_at fb d with
+  | Some fd => match ff_window fd with Some w => (win_start w =? 0) && (win_stride w =? 1) | None => true end
+  | None => false
+  end.
+
+(** what a derived factor may read: a factor of [act_design] without a complex
+    window; an implied factor may also read an implied factor listed before it
+    that has a level in every trial *)
+Definition dep_ok (f d : nat) : bool :=
+  (isact d && negb (is_complex fb d)) || (negb (isact f) && negb (isact d) && (d <? f) && always_appl d).
+
 (** every table entry has one in-range cell per depended-on factor (and per
-    trial of the window), and the depended-on factors are factors of
-    [act_design] without a complex window *)
+    trial of the window), and the depended-on factors are as [dep_ok] says *)
 Definition tables_ok (f : nat) (fd : ffactor) : bool :=
   match ff_window fd with
   | None => true
   | Some w =>
-    forallb (fun d => isact d && negb (is_complex fb d)) (win_deps w) &&
+    forallb (dep_ok f) (win_deps w) &&
     (negb (isact f) ||
      forallb (fun lv => forallb (if ff_complex fd then entryw_ok (win_width w) (win_deps w) else entry_ok (win_deps w))
                                 (lv_accepts lv)) (ff_levels fd))
